@@ -3,7 +3,7 @@ name is usable."""
 import ast
 
 from ..analysis import PROPERTY_TEXT, self_attr
-from ..const import Regex, Unfoldable, regex_literal_strings
+from ..const import EnumVal, Regex, Unfoldable, regex_literal_strings
 from ..index import AnalysisError, norm
 from ..report import rule
 from ..resolve import walk_own
@@ -98,10 +98,22 @@ def r16a(R):
     # the `in _NON_ALNUM_LIST` test is a substring test: only single
     # characters may be looked up there
     tok = lex.methods['tokens']
-    sub = [n for n in walk_own(tok.node) if isinstance(n, ast.Compare)
-           and isinstance(n.ops[0], ast.In) and norm(n.comparators[0]).endswith('_NON_ALNUM_LIST')]
-    R.check(tok, 'punctuation classified through _NON_ALNUM_LIST', len(sub) == 1,
-            'tokens() no longer classifies punctuation through _NON_ALNUM_LIST')
+    from ..cfg import reachable_without_edges
+    cfg = A.cfg(tok)
+    conds = [n for n in cfg.nodes if n.kind == 'cond' and isinstance(n.ast, ast.Compare)
+             and isinstance(n.ast.ops[0], (ast.In, ast.NotIn))
+             and norm(n.ast.comparators[0]).endswith('_NON_ALNUM_LIST')]
+    marks = [n for n in cfg.nodes if n.kind == 'stmt' and isinstance(n.ast, ast.Assign)
+             and isinstance(A.try_fold(n.ast.value, tok), EnumVal)
+             and A.try_fold(n.ast.value, tok).member == 'MARK']
+    ok = len(conds) == 1 and bool(marks)
+    if ok:
+        member_edge = isinstance(conds[0].ast.ops[0], ast.In)
+        reach = reachable_without_edges(cfg, cfg.entry, {(conds[0].id, member_edge)})
+        ok = all(m.id not in reach for m in marks)
+    R.check(tok, 'punctuation classified through _NON_ALNUM_LIST', ok,
+            'tokens() no longer classifies punctuation (and only punctuation) '
+            'as MARK through the _NON_ALNUM_LIST membership test')
 
 
 def _ordered_literals(pattern):
